@@ -92,6 +92,8 @@ def options(rng, N):
     kw = dict(scheduler=str(rng.choice(gen.SCHEDS)), order=int(rng.choice([-1, 0, 1, 2])),
               Jdes=int(rng.choice([15, 40])), Kdes=int(rng.choice([10, 40])),
               Lmin=int(rng.choice([1, 16, 64])), olap=float(rng.choice([0.5, 0.75])))
+    if rng.random() < 0.35:
+        kw["backend"] = str(rng.choice(["numpy", "numpy", "auto"]))   # every option is forwarded
     kw.update(api.win_args({"kind": "hann", "name": "hann"} if rng.random() < 0.5 else
                            {"kind": "kaiser", "psll": float(rng.choice([80, 160, 200]))}))
     return kw
